@@ -1255,6 +1255,7 @@ func (c *Ctx) pkgoDispatch(si *siteInfo, rule string) {
 	for _, path := range paths {
 		var nodeKind, objKind string
 		aliasResolved := false
+		aliasPtrStep := false // ... and an alias of a pointer type (type A = *T) is resolved to T as well
 		unresolvedPkgTest := false
 		recvNonNil, recvNilOrCompound := false, false
 		byUse := false
@@ -1283,6 +1284,14 @@ func (c *Ctx) pkgoDispatch(si *siteInfo, rule string) {
 							}
 						}
 						if oc := P.CallTo(r, "(*go/types.Named).Obj"); oc != nil {
+							// (a scan of all origins first: the pointer step is one of them)
+							c.throughAsserts(oc.Call.Args[0], 0, func(q ssa.Value) bool {
+								uc := P.CallTo(q, "go/types.Unalias")
+								if uc != nil && P.RootsAny(uc.Call.Args[0], func(a ssa.Value) bool { return P.elemOfUnaliasedPointer(a) }) {
+									aliasPtrStep = true
+								}
+								return false
+							})
 							if c.throughAsserts(oc.Call.Args[0], 0, func(q ssa.Value) bool { return P.CallTo(q, "go/types.Unalias") != nil }) {
 								sawAliasRes = true
 								return true
@@ -1358,6 +1367,10 @@ func (c *Ctx) pkgoDispatch(si *siteInfo, rule string) {
 		if si.S.Code == "PKGO01" && ok && !aliasResolved {
 			okAll = false
 			c.fail(rule+"/ALIAS-RESOLVED", si.Name, where, "the type is looked up under the (package, name) of the identifier written at the use site: a restricted type used through `type A = T` is judged as A (C13)")
+		}
+		if si.S.Code == "PKGO01" && ok && aliasResolved && !aliasPtrStep {
+			okAll = false
+			c.fail(rule+"/ALIAS-RESOLVED", si.Name+"#pointer", where, "an alias of a pointer type is not resolved to the type pointed to (Unalias, then the pointer's element, un-aliased again): a restricted type used through `type A = *T` is judged as A (C13)")
 		}
 		if si.S.Code == "PKGO02" && !recvNilOrCompound {
 			ok = false
